@@ -33,7 +33,18 @@ type SCTP struct {
 	NClose int
 	Writes []SCTPWrite
 	NoInfo bool // deliver chunks without SndRcvInfo (socket not subscribed to data io events)
+	// WFail: the next len(WFail) SCTPWrite calls fail with a temporary error (WFail[i] true) or
+	// succeed (false); every call, failed or not, is recorded in Attempts with its stream.
+	WFail    []bool
+	Attempts []SCTPWrite
 }
+
+// TempErr is a temporary net.Error.
+type TempErr struct{}
+
+func (TempErr) Error() string   { return "temporary write error" }
+func (TempErr) Timeout() bool   { return false }
+func (TempErr) Temporary() bool { return true }
 
 func NewSCTP(name string) *SCTP { return &SCTP{Name: name} }
 
@@ -90,6 +101,14 @@ func (s *SCTP) SCTPWrite(b []byte, info *sctp.SndRcvInfo) (int, error) {
 	w := SCTPWrite{Data: append([]byte{}, b...)}
 	if info != nil {
 		w.Stream, w.PPID = info.Stream, info.PPID
+	}
+	s.Attempts = append(s.Attempts, w)
+	if len(s.WFail) > 0 {
+		fail := s.WFail[0]
+		s.WFail = s.WFail[1:]
+		if fail {
+			return 0, TempErr{}
+		}
 	}
 	s.Writes = append(s.Writes, w)
 	return len(b), nil
